@@ -1,4 +1,5 @@
 mod c08;
+mod c19;
 mod canon;
 mod wrap;
 mod common;
@@ -21,6 +22,7 @@ fn main() {
                 "C05" => vec![o_text::c05(&c, &tier)],
                 "C08" => c08::oracle(&c, seed, &tier),
                 "C11" => vec![o_text::c11(&c, &tier)],
+                "C19" => c19::oracle(&c, seed, &tier),
                 _ => { eprintln!("no oracle for {p}"); std::process::exit(2) }
             };
             for r in reps { r.emit(); }
